@@ -23,7 +23,8 @@ fn spec(tier: Tier) -> SimSpec {
         cfg: CfgSpec {
             kinds: [3, 3, 4],
             chans: (1, 3),
-            mems: &[8_000, 3_000, 5_000, 16_000, 64_000, 200_000],
+            // 4_800 and 12_000 are multiples of the slice size: a sliced message can fill such a budget to the byte
+            mems: &[8_000, 3_000, 5_000, 4_800, 16_000, 12_000, 64_000, 200_000],
             budgets: &[60_000, 6_000, 2_400, 1_000_000],
             resends: RESENDS,
             clients: (1, 1),
